@@ -32,24 +32,42 @@ type c09Scen struct {
 	Entry    string `json:"entry"`     // index | media
 	Word     string `json:"word"`      // regular | params | sparse
 	AttachMS int    `json:"attach_ms"` // the client starts at this virtual time
-	Policy   int    `json:"policy"`
-	Bound    int    `json:"bound"`
-	Shard    int    `json:"shard"`
-	Shards   int    `json:"shards"`
+	// DelaySeg / DelayMS: the DelaySeg-th request for a media segment (1-based) spends DelayMS on its way to the muxer
+	// (the segment may have left the window by then)
+	DelaySeg int `json:"delay_seg,omitempty"`
+	DelayMS  int `json:"delay_ms,omitempty"`
+	Policy   int `json:"policy"`
+	Bound    int `json:"bound"`
+	Shard    int `json:"shard"`
+	Shards   int `json:"shards"`
 }
 
 func (s c09Scen) name() string {
-	return fmt.Sprintf("C09 {%s} entry=%s word=%s attach=%dms policy=%d bound=%d shard=%d/%d", s.Cfg, s.Entry, s.Word, s.AttachMS, s.Policy, s.Bound, s.Shard, s.Shards)
+	delay := ""
+	if s.DelaySeg != 0 {
+		delay = fmt.Sprintf(" delay=seg%d+%dms", s.DelaySeg, s.DelayMS)
+	}
+	return fmt.Sprintf("C09 {%s} entry=%s word=%s attach=%dms%s policy=%d bound=%d shard=%d/%d", s.Cfg, s.Entry, s.Word, s.AttachMS, delay, s.Policy, s.Bound, s.Shard, s.Shards)
 }
 
 // muxTransport serves every request by calling Muxer.Handle in its own thread.
 type muxTransport struct {
 	m    *Muxer
 	reqs []string
+	// the delaySeg-th segment request is delayed by delay
+	delaySeg int
+	delay    time.Duration
+	nSeg     int
 }
 
 func (t *muxTransport) RoundTrip(req *http.Request) (*http.Response, error) {
 	t.reqs = append(t.reqs, req.URL.String())
+	if strings.Contains(req.URL.Path, "_seg") {
+		t.nSeg++
+		if t.nSeg == t.delaySeg {
+			vsched.Sleep(t.delay)
+		}
+	}
 	rec := &respRec{Hdr: http.Header{}}
 	done := make(chan struct{})
 	m := t.m
@@ -65,7 +83,9 @@ func (t *muxTransport) RoundTrip(req *http.Request) (*http.Response, error) {
 	}
 	status := rec.Status
 	if status == 0 {
-		status = 404
+		// the muxer wrote nothing (a path it does not know, e.g. a segment that has left the window): net/http then sends
+		// an empty 200 response
+		status = 200
 	}
 	return &http.Response{StatusCode: status, Status: strconv.Itoa(status), Header: rec.Hdr, Request: req, Proto: "HTTP/1.1",
 		Body: &bytesBody{r: bytes.NewReader(rec.Body.Bytes())}, ContentLength: int64(rec.Body.Len())}, nil
@@ -200,7 +220,7 @@ func c09Harness(sc c09Scen) vsched.Harness {
 			}
 			st.mi = mi
 			st.written = make([][]c09Written, len(sc.Cfg.Tracks))
-			st.tr = &muxTransport{m: mi.m}
+			st.tr = &muxTransport{m: mi.m, delaySeg: sc.DelaySeg, delay: time.Duration(sc.DelayMS) * time.Millisecond}
 			word := c09Word(sc.Cfg, sc.Word)
 			vsched.GoNamed("writer", func() {
 				for _, u := range word {
@@ -339,6 +359,12 @@ func c09Harness(sc c09Scen) vsched.Harness {
 				return outcome, viols
 			}
 			cfg := st.sc.Cfg
+			// a request that arrives after its segment has left the window may end the session early with an error: then
+			// only what was delivered is judged
+			lenient := st.sc.DelaySeg != 0 && st.waitErr != nil
+			if lenient && st.onTracksN == 0 {
+				return outcome, viols
+			}
 			if st.onTracksN != 1 {
 				add("on-tracks", "OnTracks was called %d times (client ended with %v; requests: %v)", st.onTracksN, st.waitErr, canon(strings.Join(st.tr.reqs, " ")))
 				return outcome, viols
@@ -467,6 +493,9 @@ func c09Harness(sc c09Scen) vsched.Harness {
 				return outcome, viols
 			}
 			// delivered units: byte-identical to written ones, once, in order, gap-free; time relative to the first delivered leading unit
+			if lenient && (leadIdx < 0 || len(st.units[leadIdx]) == 0) {
+				return outcome, viols
+			}
 			if leadIdx < 0 || len(st.units[leadIdx]) == 0 {
 				add("nothing-delivered", "no unit of the leading track was delivered (client ended with %v after %d requests)", st.waitErr, len(st.tr.reqs))
 				return outcome, viols
@@ -496,6 +525,9 @@ func c09Harness(sc c09Scen) vsched.Harness {
 					outClock = 90000
 				}
 				us := st.units[i]
+				if len(us) == 0 && lenient {
+					continue
+				}
 				if len(us) == 0 {
 					add("track-without-units", "no unit of track %d (%s) was delivered although %d were written", i, t.Kind, len(st.written[ti]))
 					continue
@@ -708,6 +740,20 @@ func c09Scens(tier string) []c09Scen {
 							out = append(out, c09Scen{Cfg: cfg, Entry: entry, Word: word, AttachMS: attach, Policy: pol, Bound: b, Shard: sh, Shards: shards})
 						}
 					}
+				}
+			}
+		}
+	}
+	// a segment request that is slow on its way: by the time it arrives the segment has left the window (SegmentCount 3..5,
+	// delays of 2.5 .. 6.5 s); whatever the client then does, it never delivers a run with a hole
+	for _, cfg := range []muxCfg{mcfg("fmp4", false, 3, "h264"), mcfg("fmp4", false, 4, "h264", "aac44"), mcfg("fmp4", false, 5, "h264"), mcfg("mpegts", false, 3, "h264", "aac44"), mcfg("mpegts", false, 4, "h264")} {
+		for _, entry := range []string{"index", "media"} {
+			for _, seg := range []int{1, 2, 3} {
+				for _, ms := range []int{2500, 3500, 4500, 6500} {
+					if tier != "thorough" && (entry == "media") != (ms == 3500 || ms == 6500) {
+						continue
+					}
+					out = append(out, c09Scen{Cfg: cfg, Entry: entry, Word: "regular", AttachMS: 3350, DelaySeg: seg, DelayMS: ms, Policy: 0})
 				}
 			}
 		}
